@@ -491,6 +491,283 @@ fn regex_case(case: &Value) -> Value {
   json!({ "verdicts": res })
 }
 
+// case: {src, media} -> every identifier occurrence of the resolved program (C14/C20):
+// {"idents": [[start, end, symbol, syntax-context id, kind, declared-in-deno_ast-Scope, ambient], ...],
+//  "unresolved": ctxt id, "exported": [[symbol, ctxt], ...]}
+// kind: ref | bind | import | import_ext | export | label | prop | shorthand | jsx
+fn idents_case(case: &Value) -> Value {
+  use deno_ast::swc::ast as sw;
+  use deno_ast::swc::ecma_visit::{Visit, VisitWith};
+  struct V {
+    out: Vec<(u32, u32, String, u32, &'static str, bool)>,
+    exported: Vec<(String, u32)>,
+    kind: &'static str,
+    ambient: u32,
+  }
+  impl V {
+    fn put(&mut self, i: &sw::Ident, kind: &'static str) {
+      self.out.push((i.span.lo.0, i.span.hi.0, i.sym.to_string(), i.ctxt.as_u32(), kind, self.ambient > 0));
+    }
+    fn put_name(&mut self, i: &sw::IdentName, kind: &'static str) {
+      self.out.push((i.span.lo.0, i.span.hi.0, i.sym.to_string(), 0, kind, self.ambient > 0));
+    }
+    fn with_kind<F: FnOnce(&mut V)>(&mut self, kind: &'static str, f: F) {
+      let old = std::mem::replace(&mut self.kind, kind);
+      f(self);
+      self.kind = old;
+    }
+    fn key_expr(&mut self, computed: bool, key: &sw::Expr) {
+      match key {
+        sw::Expr::Ident(i) if !computed => self.put(i, "prop"),
+        _ => key.visit_with(self),
+      }
+    }
+    fn export_id(&mut self, i: &sw::Ident) {
+      self.exported.push((i.sym.to_string(), i.ctxt.as_u32()));
+    }
+  }
+  impl Visit for V {
+    fn visit_ident(&mut self, n: &sw::Ident) {
+      let k = self.kind;
+      self.put(n, k);
+    }
+    fn visit_ident_name(&mut self, n: &sw::IdentName) {
+      self.put_name(n, "prop");
+    }
+    fn visit_binding_ident(&mut self, n: &sw::BindingIdent) {
+      self.put(&n.id, "bind");
+      self.with_kind("ref", |v| n.type_ann.visit_with(v));
+    }
+    fn visit_fn_decl(&mut self, n: &sw::FnDecl) {
+      self.put(&n.ident, "bind");
+      n.function.visit_with(self);
+    }
+    fn visit_fn_expr(&mut self, n: &sw::FnExpr) {
+      if let Some(i) = &n.ident {
+        self.put(i, "bind");
+      }
+      n.function.visit_with(self);
+    }
+    fn visit_class_decl(&mut self, n: &sw::ClassDecl) {
+      self.put(&n.ident, "bind");
+      n.class.visit_with(self);
+    }
+    fn visit_class_expr(&mut self, n: &sw::ClassExpr) {
+      if let Some(i) = &n.ident {
+        self.put(i, "bind");
+      }
+      n.class.visit_with(self);
+    }
+    fn visit_ts_enum_decl(&mut self, n: &sw::TsEnumDecl) {
+      self.put(&n.id, "bind");
+      n.members.visit_with(self);
+    }
+    fn visit_ts_enum_member(&mut self, n: &sw::TsEnumMember) {
+      if let sw::TsEnumMemberId::Ident(i) = &n.id {
+        self.put(i, "prop");
+      }
+      n.init.visit_with(self);
+    }
+    fn visit_ts_interface_decl(&mut self, n: &sw::TsInterfaceDecl) {
+      self.put(&n.id, "bind");
+      n.type_params.visit_with(self);
+      n.extends.visit_with(self);
+      n.body.visit_with(self);
+    }
+    fn visit_ts_type_alias_decl(&mut self, n: &sw::TsTypeAliasDecl) {
+      self.put(&n.id, "bind");
+      n.type_params.visit_with(self);
+      n.type_ann.visit_with(self);
+    }
+    fn visit_ts_type_param(&mut self, n: &sw::TsTypeParam) {
+      self.put(&n.name, "bind");
+      n.constraint.visit_with(self);
+      n.default.visit_with(self);
+    }
+    fn visit_ts_module_decl(&mut self, n: &sw::TsModuleDecl) {
+      let amb = n.global || matches!(n.id, sw::TsModuleName::Str(_));
+      if let sw::TsModuleName::Ident(i) = &n.id {
+        self.put(i, "bind");
+      }
+      if amb {
+        self.ambient += 1;
+      }
+      n.body.visit_with(self);
+      if amb {
+        self.ambient -= 1;
+      }
+    }
+    fn visit_ts_namespace_decl(&mut self, n: &sw::TsNamespaceDecl) {
+      self.put(&n.id, "prop");
+      n.body.visit_with(self);
+    }
+    fn visit_ts_import_equals_decl(&mut self, n: &sw::TsImportEqualsDecl) {
+      self.put(&n.id, "import");
+      if n.is_export {
+        self.export_id(&n.id);
+      }
+      n.module_ref.visit_with(self);
+    }
+    fn visit_ts_namespace_export_decl(&mut self, n: &sw::TsNamespaceExportDecl) {
+      self.put(&n.id, "export");
+    }
+    fn visit_ts_property_signature(&mut self, n: &sw::TsPropertySignature) {
+      self.key_expr(n.computed, &n.key);
+      n.type_ann.visit_with(self);
+    }
+    fn visit_ts_method_signature(&mut self, n: &sw::TsMethodSignature) {
+      self.key_expr(n.computed, &n.key);
+      n.type_params.visit_with(self);
+      n.params.visit_with(self);
+      n.type_ann.visit_with(self);
+    }
+    fn visit_ts_getter_signature(&mut self, n: &sw::TsGetterSignature) {
+      self.key_expr(n.computed, &n.key);
+      n.type_ann.visit_with(self);
+    }
+    fn visit_ts_setter_signature(&mut self, n: &sw::TsSetterSignature) {
+      self.key_expr(n.computed, &n.key);
+      n.param.visit_with(self);
+    }
+    fn visit_labeled_stmt(&mut self, n: &sw::LabeledStmt) {
+      self.put(&n.label, "label");
+      n.body.visit_with(self);
+    }
+    fn visit_break_stmt(&mut self, n: &sw::BreakStmt) {
+      if let Some(l) = &n.label {
+        self.put(l, "label");
+      }
+    }
+    fn visit_continue_stmt(&mut self, n: &sw::ContinueStmt) {
+      if let Some(l) = &n.label {
+        self.put(l, "label");
+      }
+    }
+    fn visit_prop(&mut self, n: &sw::Prop) {
+      match n {
+        sw::Prop::Shorthand(i) => self.put(i, "shorthand"),
+        _ => n.visit_children_with(self),
+      }
+    }
+    fn visit_assign_pat_prop(&mut self, n: &sw::AssignPatProp) {
+      self.put(&n.key.id, "shorthand");
+      n.value.visit_with(self);
+    }
+    fn visit_jsx_element_name(&mut self, n: &sw::JSXElementName) {
+      self.with_kind("jsx", |v| n.visit_children_with(v));
+    }
+    fn visit_import_decl(&mut self, n: &sw::ImportDecl) {
+      self.with_kind("import", |v| n.specifiers.visit_with(v));
+    }
+    fn visit_import_named_specifier(&mut self, n: &sw::ImportNamedSpecifier) {
+      self.put(&n.local, "import");
+      if let Some(sw::ModuleExportName::Ident(i)) = &n.imported {
+        self.put(i, "import_ext");
+      }
+    }
+    fn visit_named_export(&mut self, n: &sw::NamedExport) {
+      self.with_kind("export", |v| n.specifiers.visit_with(v));
+    }
+    fn visit_export_named_specifier(&mut self, n: &sw::ExportNamedSpecifier) {
+      if let sw::ModuleExportName::Ident(i) = &n.orig {
+        self.put(i, "export");
+        self.export_id(i);
+      }
+      if let Some(sw::ModuleExportName::Ident(i)) = &n.exported {
+        self.put(i, "export");
+      }
+    }
+    fn visit_export_decl(&mut self, n: &sw::ExportDecl) {
+      match &n.decl {
+        sw::Decl::Class(d) => self.export_id(&d.ident),
+        sw::Decl::Fn(d) => self.export_id(&d.ident),
+        sw::Decl::Var(d) => {
+          let ids: Vec<sw::Ident> = deno_ast::swc::utils::find_pat_ids(&d.decls);
+          for i in &ids {
+            self.export_id(i);
+          }
+        }
+        sw::Decl::Using(d) => {
+          let ids: Vec<sw::Ident> = deno_ast::swc::utils::find_pat_ids(&d.decls);
+          for i in &ids {
+            self.export_id(i);
+          }
+        }
+        sw::Decl::TsInterface(d) => self.export_id(&d.id),
+        sw::Decl::TsTypeAlias(d) => self.export_id(&d.id),
+        sw::Decl::TsEnum(d) => self.export_id(&d.id),
+        sw::Decl::TsModule(d) => {
+          if let sw::TsModuleName::Ident(i) = &d.id {
+            self.export_id(i);
+          }
+        }
+      }
+      n.decl.visit_with(self);
+    }
+    fn visit_export_default_decl(&mut self, n: &sw::ExportDefaultDecl) {
+      match &n.decl {
+        sw::DefaultDecl::Class(c) => {
+          if let Some(i) = &c.ident {
+            self.export_id(i);
+          }
+        }
+        sw::DefaultDecl::Fn(f) => {
+          if let Some(i) = &f.ident {
+            self.export_id(i);
+          }
+        }
+        sw::DefaultDecl::TsInterfaceDecl(d) => self.export_id(&d.id),
+      }
+      n.decl.visit_with(self);
+    }
+    fn visit_export_default_expr(&mut self, n: &sw::ExportDefaultExpr) {
+      if let sw::Expr::Ident(i) = &*n.expr {
+        self.export_id(i);
+      }
+      n.expr.visit_with(self);
+    }
+    fn visit_ts_export_assignment(&mut self, n: &sw::TsExportAssignment) {
+      if let sw::Expr::Ident(i) = &*n.expr {
+        self.export_id(i);
+      }
+      n.expr.visit_with(self);
+    }
+  }
+  let src = case["src"].as_str().unwrap_or("").to_string();
+  let mt = media(case["media"].as_str().unwrap_or("ts"));
+  let spec = ModuleSpecifier::parse(&format!("file:///v/case.{}", ext_of(mt))).unwrap();
+  match deno_ast::parse_program(deno_ast::ParseParams {
+    specifier: spec,
+    media_type: mt,
+    text: src.into(),
+    capture_tokens: true,
+    maybe_syntax: Some(deno_ast::get_syntax(mt)),
+    scope_analysis: true,
+  }) {
+    Ok(ps) => {
+      let scope = ps.with_view(|pg| deno_ast::Scope::analyze(pg));
+      let mut v = V { out: vec![], exported: vec![], kind: "ref", ambient: 0 };
+      ps.program_ref().visit_with(&mut v);
+      // BytePos is 1-based for a parsed source
+      let ids: Vec<Value> = v
+        .out
+        .iter()
+        .map(|(lo, hi, sym, ctxt, kind, amb)| {
+          let declared = *kind != "prop"
+            && scope
+              .var(&(sym.as_str().into(), deno_ast::swc::common::SyntaxContext::from_u32(*ctxt)))
+              .is_some();
+          json!([lo.saturating_sub(1), hi.saturating_sub(1), sym, ctxt, kind, declared, amb])
+        })
+        .collect();
+      let exported: Vec<Value> = v.exported.iter().map(|(s, c)| json!([s, c])).collect();
+      json!({"idents": ids, "unresolved": ps.unresolved_context().as_u32(), "exported": exported,
+             "parse_diags": ps.diagnostics().len()})
+    }
+    Err(e) => json!({ "parse_error": format!("{}", e.message()) }),
+  }
+}
+
 thread_local! {
   static LAST_PANIC_LOC: std::cell::RefCell<String> = std::cell::RefCell::new(String::new());
 }
@@ -520,6 +797,7 @@ fn main() {
     "cf" => cf_case,
     "parse" => parse_case,
     "regex" => regex_case,
+    "idents" => idents_case,
     _ => {
       eprintln!("unknown subcommand {sub}");
       std::process::exit(2);
